@@ -171,6 +171,7 @@ static inline void __attribute__((always_inline)) myth_queue_push(myth_thread_qu
       //Shift pointers
       int offset = (- q->base - 1) / 2;
       myth_assert(offset < 0);
+      MYTH_VERIF_POINT(mythv_p_q_push_top, q->top);
       memmove(&q->ptr[q->base+offset], &q->ptr[q->base], 
 	      sizeof(myth_thread_t) * (q->top - q->base));
       q->top += offset;
@@ -181,8 +182,10 @@ static inline void __attribute__((always_inline)) myth_queue_push(myth_thread_qu
     myth_wsqueue_lock_unlock(&q->lock);
   }
   //Do not need to extend of move.
+  MYTH_VERIF_POINT(mythv_p_q_push_slot, q->ptr[t]);
   q->ptr[t] = th;
   myth_wsqueue_wbarrier();//Guarantee W-W dependency
+  MYTH_VERIF_POINT(mythv_p_q_push_pub, q->top);
   q->top = t + 1;
 #if USE_LOCK || USE_LOCK_PUSH
   myth_spin_unlock_body(&q->m_lock);
@@ -196,6 +199,7 @@ static inline myth_thread_t __attribute__((always_inline)) myth_queue_pop(myth_t
   myth_queue_enter_operation(q);
 
 #if QUICK_CHECK_ON_POP
+  MYTH_VERIF_POINT(mythv_p_q_pop_check, q->base);
   if (q->top <= q->base) {
     return NULL;
   }
@@ -208,11 +212,14 @@ static inline myth_thread_t __attribute__((always_inline)) myth_queue_pop(myth_t
   int top,base;
   top = q->top;
   top--;
+  MYTH_VERIF_POINT(mythv_p_q_pop_dec, q->top);
   q->top = top;
   //Decrement and check top
   myth_wsqueue_rwbarrier();
+  MYTH_VERIF_POINT(mythv_p_q_pop_base, q->base);
   base = q->base;
   if (base + 1 < top){
+    MYTH_VERIF_POINT(mythv_p_q_pop_slot, q->ptr[top]);
     ret = q->ptr[top];
     //q->ptr[top]=NULL;
 #if USE_LOCK || USE_LOCK_POP
@@ -248,7 +255,9 @@ static inline myth_thread_t __attribute__((always_inline)) myth_queue_pop(myth_t
       myth_queue_exit_operation(q);
       return ret;
     } else {
+      MYTH_VERIF_POINT(mythv_p_q_pop_dec, q->top);
       q->top = q->size/2;
+      MYTH_VERIF_POINT(mythv_p_q_pop_dec, q->base);
       q->base = q->size/2;
       myth_wsqueue_lock_unlock(&q->lock);
 #if USE_LOCK || USE_LOCK_POP
@@ -274,6 +283,7 @@ static inline myth_thread_t myth_queue_take(myth_thread_queue_t q)
   myth_thread_t ret;
   int b,top;
 #if QUICK_CHECK_ON_STEAL
+  MYTH_VERIF_POINT(mythv_p_q_take_check, q->top);
   if (q->top - q->base <= 0){
     return NULL;
   }
@@ -292,11 +302,14 @@ static inline myth_thread_t myth_queue_take(myth_thread_queue_t q)
 #endif
   //Increment base
   b = q->base;
+  MYTH_VERIF_POINT(mythv_p_q_take_inc, q->base);
   q->base = b + 1;
   myth_wsqueue_rwbarrier();
+  MYTH_VERIF_POINT(mythv_p_q_take_top, q->top);
   top = q->top;
   if (b < top){
     myth_wsqueue_rbarrier();
+    MYTH_VERIF_POINT(mythv_p_q_take_slot, q->ptr[b]);
     ret = q->ptr[b];
     //q->ptr[b]=NULL;
     myth_wsqueue_lock_unlock(&q->lock);
@@ -305,6 +318,7 @@ static inline myth_thread_t myth_queue_take(myth_thread_queue_t q)
 #endif
     return ret;
   }else{
+    MYTH_VERIF_POINT(mythv_p_q_take_rollback, q->base);
     q->base = b;
     myth_wsqueue_lock_unlock(&q->lock);
 #if USE_LOCK || USE_LOCK_TAKE
@@ -320,6 +334,7 @@ static inline myth_thread_t myth_queue_peek(myth_thread_queue_t q)
   myth_thread_t ret;
   int b,top;
 #if QUICK_CHECK_ON_STEAL
+  MYTH_VERIF_POINT(mythv_p_q_peek, q->top);
   if (q->top - q->base <= 0){
     return NULL;
   }
@@ -327,10 +342,13 @@ static inline myth_thread_t myth_queue_peek(myth_thread_queue_t q)
   //myth_wsqueue_lock_lock(&q->lock);
   //if (!myth_wsqueue_lock_trylock(&q->lock))return NULL;
   //Increment base
+  MYTH_VERIF_POINT(mythv_p_q_peek, q->base);
   b = q->base;
+  MYTH_VERIF_POINT(mythv_p_q_peek, q->top);
   top = q->top;
   if (b < top){
     myth_wsqueue_rbarrier();
+    MYTH_VERIF_POINT(mythv_p_q_peek, q->ptr[b]);
     ret = q->ptr[b];
     //myth_wsqueue_lock_unlock(&q->lock);
     return ret;
@@ -355,8 +373,10 @@ static inline int myth_queue_trypass(myth_thread_queue_t q,myth_thread_t th)
   else{
     int b;
     b = q->base;
+    MYTH_VERIF_POINT(mythv_p_q_pass, q->ptr[b-1]);
     q->ptr[b-1] = th;
     myth_wsqueue_wbarrier();
+    MYTH_VERIF_POINT(mythv_p_q_pass, q->base);
     q->base--;
   }
   myth_wsqueue_lock_unlock(&q->lock);
@@ -392,6 +412,7 @@ static inline void myth_queue_put(myth_thread_queue_t q, myth_thread_t th)
     } else {
       int offset = (q->size - q->top + 1) / 2;
       myth_assert(offset > 0);
+      MYTH_VERIF_POINT(mythv_p_q_put, q->top);
       memmove(&q->ptr[q->base + offset], &q->ptr[q->base],
 	      sizeof(myth_thread_t) * (q->top - q->base));
       q->top += offset;
@@ -402,7 +423,9 @@ static inline void myth_queue_put(myth_thread_queue_t q, myth_thread_t th)
   int b = q->base;
   myth_assert(b > 0);
   b--;
+  MYTH_VERIF_POINT(mythv_p_q_put, q->ptr[b]);
   q->ptr[b] = th;
+  MYTH_VERIF_POINT(mythv_p_q_put, q->base);
   q->base = b;
   myth_wsqueue_lock_unlock(&q->lock);
 #if USE_LOCK || USE_LOCK_PUSH
